@@ -4,6 +4,7 @@ P=$1; PATCH=$2; DEMO=$3
 cd /repo || exit 9
 git diff --quiet || { echo "repo dirty"; exit 9; }
 git apply "$PATCH" || { echo "PATCH DOES NOT APPLY"; exit 9; }
+trap 'git -C /repo checkout -- . 2>/dev/null' EXIT INT TERM PIPE
 cd /verif
 ./check "$P" 2>&1 | grep -E "VIOLATION|UNDECIDED|^OK|failed obligation|CRASH|KNOWN" | head -6
 echo "check exit: $?"
